@@ -178,7 +178,8 @@ def replay(p):
     if p.get("kind") == "commute":
         pr = commute_problem()
         return bool(pr), pr or "commutation rules agree with matrix conjugation"
-    return _num(p["circuit"], p["diag"], p["tracker"], p["bits"], p["params"], p["amps"])
+    amps = [complex(a[0], a[1]) if isinstance(a, (list, tuple)) else complex(a) for a in p["amps"]]
+    return _num(p["circuit"], p["diag"], p["tracker"], p["bits"], p["params"], amps)
 
 
 class _TrackerMath:
